@@ -1,13 +1,23 @@
 /-
   Engine `tlink` (C06).  Op lines:
 
-    seq  <maxMsg> <nmsgs> <op>…              op: w<hex>|a<hex> write/writeArray, x<hex> raw_write,
+    seq  <maxMsg> <nmsgs> <op>…              op: w<hex>|a<hex> write/writeArray, x<hex> raw_write of the block <hex>,
+                                                  b<hex> message composed in buffer(), then raw_write(buffer()),
                                                   r read, l read_lookahead, h hasNext, k hasNextLookahead
-         → one token per op: a|d (accepted/dropped), m<hex>|m- (message returned / nothing), 1|0
+         → one token per op: a|d (accepted/dropped), m<hex>|m- (message returned / nothing), 1|0;
+           `hang` / `oob` ends the line: rtosc_message_length(msg,-1) inside raw_write does not
+           return / reads outside the block (the harness side is then a crash of the line)
     conc <maxMsg> <nmsgs> <chunk> <wops> <rops> <sched>
                                              wops: w<hex>,x<hex>,… or -; rops: string over h k r l or -;
                                              sched: string over w r (thread choices) or -
          → T <access trace> W <accept flags> R <reader results> D <messages drained afterwards> F<fault>
+           the trace carries operation boundaries: bw<i>/ew<i> (writer), br<i>/er<i> (reader)
+
+  `b<hex>`: the block handed to raw_write is write_buffer = the message followed by stale bytes.
+  The generator uses it for OSC messages only, whose length does not depend on what follows
+  (`Framing.msg`, `rawLen_msg`), so the model runs `rawWrite <message>`; a message longer than
+  MaxMsg = buffer_size() is not composed (the constructor returns 0) and nothing is sent, which
+  is what `rawWrite` of an over-long message does.
     enum <maxMsg> <nmsgs> <chunk> <wops> <rops> <limit> <warm: 0|1>
          → every complete schedule of the model, comma separated (used by the generator only)
     soak …  → `soak ok` (the implementation side runs two free-running threads)
@@ -30,6 +40,7 @@ def parseSeqOp (t : String) : Option Op :=
   | 'w' :: cs => (hexTok cs).map .write
   | 'a' :: cs => (hexTok cs).map .write
   | 'x' :: cs => (hexTok cs).map .rawWrite
+  | 'b' :: cs => (hexTok cs).map .rawWrite
   | _ => none
 
 def showSeq (before after : Seq) : Out → String
@@ -38,11 +49,19 @@ def showSeq (before after : Seq) : Out → String
   | .msg none => "m-"
   | .msg (some m) => "m" ++ toHex m
 
+def stopWord : Op → String
+  | .rawWrite b => match rawLen b with
+    | .hang => "hang"
+    | .oob => "oob"
+    | .ok _ => "?"
+  | _ => "?"
+
 def runSeq (s : Seq) : List Op → List String → Seq × List String
   | [], acc => (s, acc.reverse)
   | op :: ops, acc =>
-    let (s', o) := s.step frameExec op
-    runSeq s' ops (showSeq s s' o :: acc)
+    match s.stepOsc op with
+    | some (s', o) => runSeq s' ops (showSeq s s' o :: acc)
+    | none => (s, (stopWord op :: acc).reverse)
 
 def seqLine (ws : List String) : String :=
   match ws with
@@ -61,6 +80,7 @@ def parseWOps (t : String) : Option (List WOp) :=
     | 'w' :: cs => (hexTok cs).map .write
     | 'a' :: cs => (hexTok cs).map .write
     | 'x' :: cs => (hexTok cs).map .rawWrite
+    | 'b' :: cs => (hexTok cs).map .rawWrite
     | _ => none
 
 def parseROps (t : String) : Option (List ROp) :=
@@ -94,16 +114,60 @@ def showROut : ROut → String
   | .read false m => "r" ++ toHex m
   | .read true m => "l" ++ toHex m
 
+/-- operation boundaries as the harness emits them: a thread that completes an operation marks
+    its end, runs through the following operations that have no shared access at all (begin and
+    end back to back) and marks the begin of the next one, all before its next shared access -/
+def wMarks (n0 : Nat) (after : Conc) (inProgress : Bool) : List String :=
+  let n1 := after.wlog.length
+  if n1 = n0 then [] else
+    let first := if inProgress then [s!"ew{n0}"] else [s!"bw{n0}", s!"ew{n0}"]
+    first ++ ((List.range (n1 - n0 - 1)).flatMap fun j => [s!"bw{n0 + 1 + j}", s!"ew{n0 + 1 + j}"]) ++
+      (if after.wops.isEmpty then [] else [s!"bw{n1}"])
+
+def rMarks (n0 : Nat) (after : Conc) : List String :=
+  let n1 := after.rlog.length
+  if n1 = n0 then [] else
+    [s!"er{n0}"] ++ (if after.rops.isEmpty then [] else [s!"br{n1}"])
+
+/-- one step of thread `t`, with the text it adds to the trace -/
+def stepT (s : Conc) (t : Tid) : Option (Conc × List String) :=
+  match s.step frameExec t with
+  | none => none
+  | some (s', e) =>
+    some (s', showEv e :: (match t with
+      | .writer => wMarks s.wlog.length s' true
+      | .reader => rMarks s.rlog.length s'))
+
+def initMarks (s0 : Conc) : List String :=
+  (if s0.wlog.isEmpty then (if s0.wops.isEmpty then [] else ["bw0"]) else
+    -- leading operations without shared access were logged by `Conc.init`
+    ((List.range s0.wlog.length).flatMap fun j => [s!"bw{j}", s!"ew{j}"]) ++
+      (if s0.wops.isEmpty then [] else [s!"bw{s0.wlog.length}"])) ++
+  (if s0.rops.isEmpty then [] else ["br0"])
+
+def runSched : List Tid → Conc → Array String → Conc × Array String
+  | [], s, acc => (s, acc)
+  | t :: ts, s, acc =>
+    match stepT s t with
+    | none => runSched ts s acc
+    | some (s', tr) => runSched ts s' (acc ++ tr.toArray)
+
 /-- when the schedule is used up: the writer runs to completion, then the reader -/
-def finish (s : Conc) (acc : Array Ev) : Nat → Conc × Array Ev
+def finish (s : Conc) (acc : Array String) : Nat → Conc × Array String
   | 0 => (s, acc)
   | f + 1 =>
-    match s.step frameExec .writer with
-    | some (s', e) => finish s' (acc.push e) f
+    match stepT s .writer with
+    | some (s', tr) => finish s' (acc ++ tr.toArray) f
     | none =>
-      match s.step frameExec .reader with
-      | some (s', e) => finish s' (acc.push e) f
+      match stepT s .reader with
+      | some (s', tr) => finish s' (acc ++ tr.toArray) f
       | none => (s, acc)
+
+/-- `raw_write` computes its length with `rtosc_message_length(msg,-1)`; the two-thread model
+    uses one framing function for both: only blocks on which the two agree are run -/
+def rawAgrees : WOp → Bool
+  | .rawWrite b => rawLen b == .ok (frameExec b)
+  | _ => true
 
 def drain (s : Seq) (acc : Array String) : Nat → Array String
   | 0 => acc
@@ -121,12 +185,13 @@ def concLine (ws : List String) : String :=
   | [mm, nn, cc, wo, ro, sc] =>
     match mm.toNat?, nn.toNat?, cc.toNat?, parseWOps wo, parseROps ro, parseSched sc with
     | some maxMsg, some nmsgs, some chunk, some wops, some rops, some sched =>
+      if !wops.all rawAgrees then "raw-length-differs" else
       let s0 := Conc.init frameExec maxMsg nmsgs chunk wops rops
-      let (s1, es) := Conc.run frameExec sched s0
-      let (s2, es2) := finish s1 es.toArray 1000000
+      let (s1, es) := runSched sched s0 (initMarks s0).toArray
+      let (s2, es2) := finish s1 es 1000000
       let d := drain s2.toSeq #[] (s2.N + 2)
       let flags := String.ofList (s2.wlog.map fun e => if e.2 then 'a' else 'd')
-      s!"T {joinOr (es2.toList.map showEv) ","} W {if flags.isEmpty then "-" else flags} R {joinOr (s2.rlog.map showROut) ","} D {joinOr d.toList ","} F{if s2.fault then 1 else 0}"
+      s!"T {joinOr es2.toList ","} W {if flags.isEmpty then "-" else flags} R {joinOr (s2.rlog.map showROut) ","} D {joinOr d.toList ","} F{if s2.fault then 1 else 0}"
     | _, _, _, _, _, _ => "bad-op"
   | _ => "bad-op"
 
